@@ -1024,4 +1024,260 @@ theorem rewriteNode_rel {exact : Str → Option (List Str)} (hs : ExactSound mat
 
 end
 
+/-! ## Conditions -/
+
+mutual
+  /-- Does a regex operator occur anywhere in the expression (call arguments included)? -/
+  def hasRegexOp : Expr → Bool
+    | .binary op l r => op == .EQREGEX || op == .NEQREGEX || hasRegexOp l || hasRegexOp r
+    | .paren e => hasRegexOp e
+    | .call _ args => hasRegexOpArgs args
+    | _ => false
+  def hasRegexOpArgs : List Expr → Bool
+    | [] => false
+    | a :: rest => hasRegexOp a || hasRegexOpArgs rest
+end
+
+theorem rewriteNode_other (exact : Str → Option (List Str)) {op : Token} (l r : Expr)
+    (h1 : op ≠ .EQREGEX) (h2 : op ≠ .NEQREGEX) : rewriteNode exact (.binary op l r) = .binary op l r := by
+  cases r <;> first | rfl | (rw [rewriteNode_regex, if_neg h1, if_neg h2])
+
+theorem rewriteExpr_binary (exact : Str → Option (List Str)) (op : Token) (l r : Expr) :
+    rewriteExpr exact (.binary op l r) =
+      rewriteNode exact (.binary op (rewriteExpr exact l) (rewriteExpr exact r)) := by
+  rw [rewriteExpr]
+
+theorem rewriteExpr_paren (exact : Str → Option (List Str)) (e : Expr) :
+    rewriteExpr exact (.paren e) = .paren (rewriteExpr exact e) := by
+  rw [rewriteExpr]
+
+theorem rewriteExpr_regex (exact : Str → Option (List Str)) (src : Str) :
+    rewriteExpr exact (.regex src) = .regex src := by
+  unfold rewriteExpr; rfl
+
+mutual
+  /-- Without a regex operator nothing changes. -/
+  theorem rewriteExpr_noop (exact : Str → Option (List Str)) :
+      ∀ e : Expr, hasRegexOp e = false → rewriteExpr exact e = e
+    | .binary op l r, h => by
+      rw [hasRegexOp] at h
+      simp only [Bool.or_eq_false_iff, beq_eq_false_iff_ne, ne_eq] at h
+      rw [rewriteExpr_binary, rewriteExpr_noop exact l h.1.2, rewriteExpr_noop exact r h.2,
+        rewriteNode_other exact l r h.1.1.1 h.1.1.2]
+    | .paren e, h => by
+      rw [hasRegexOp] at h
+      rw [rewriteExpr_paren, rewriteExpr_noop exact e h]
+    | .call name args, h => by
+      rw [hasRegexOp] at h
+      rw [rewriteExpr, rewriteArgs_noop exact args h]
+    | .varRef _ _, _ => by unfold rewriteExpr; rfl
+    | .distinct _, _ => by unfold rewriteExpr; rfl
+    | .wildcard _, _ => by unfold rewriteExpr; rfl
+    | .regex _, _ => by unfold rewriteExpr; rfl
+    | .string _, _ => by unfold rewriteExpr; rfl
+    | .number _, _ => by unfold rewriteExpr; rfl
+    | .integer _, _ => by unfold rewriteExpr; rfl
+    | .unsigned _, _ => by unfold rewriteExpr; rfl
+    | .boolean _, _ => by unfold rewriteExpr; rfl
+    | .duration _, _ => by unfold rewriteExpr; rfl
+    | .time _, _ => by unfold rewriteExpr; rfl
+    | .nil, _ => by unfold rewriteExpr; rfl
+    | .list _, _ => by unfold rewriteExpr; rfl
+    | .boundParam _, _ => by unfold rewriteExpr; rfl
+  theorem rewriteArgs_noop (exact : Str → Option (List Str)) :
+      ∀ args : List Expr, hasRegexOpArgs args = false → rewriteArgs exact args = args
+    | [], _ => by rw [rewriteArgs]
+    | a :: rest, h => by
+      rw [hasRegexOpArgs, Bool.or_eq_false_iff] at h
+      rw [rewriteArgs, rewriteExpr_noop exact a h.1, rewriteArgs_noop exact rest h.2]
+end
+
+/-- Conditions in which every regex test stands under `AND`, `OR` and parentheses only (its
+truth value is what counts there), the tested operand itself being free of regex tests.
+Sub-expressions without regex operators are arbitrary. -/
+inductive Cond : Expr → Prop
+  | atom {e : Expr} : hasRegexOp e = false → Cond e
+  | test {op : Token} {lhs : Expr} {src : Str} : hasRegexOp lhs = false → Cond (.binary op lhs (.regex src))
+  | and {l r : Expr} : Cond l → Cond r → Cond (.binary .AND l r)
+  | or {l r : Expr} : Cond l → Cond r → Cond (.binary .OR l r)
+  | paren {e : Expr} : Cond e → Cond (.paren e)
+
+/-- Before and after the rewrite a condition of class `Cond` evaluates to `≈` values. -/
+theorem rewriteExpr_rel (matchStr : Str → GoStr → Bool) (atom : Expr → Val)
+    {exact : Str → Option (List Str)} (hs : ExactSound matchStr exact) {e : Expr} (hc : Cond e) :
+    Rel (eval matchStr atom e) (eval matchStr atom (rewriteExpr exact e)) := by
+  induction hc with
+  | atom h => rw [rewriteExpr_noop exact _ h]; exact Rel.refl _
+  | @test op lhs src h =>
+    rw [rewriteExpr_binary, rewriteExpr_noop exact _ h, rewriteExpr_regex]
+    exact rewriteNode_rel matchStr atom hs op lhs src
+  | and _ _ ihl ihr =>
+    rw [rewriteExpr_binary, rewriteNode_other exact _ _ (by decide) (by decide), eval_and, eval_and]
+    exact evalLogic_rel false ihl ihr
+  | or _ _ ihl ihr =>
+    rw [rewriteExpr_binary, rewriteNode_other exact _ _ (by decide) (by decide), eval_or, eval_or]
+    exact evalLogic_rel true ihl ihr
+  | paren _ ih =>
+    rw [rewriteExpr_paren, eval_paren, eval_paren]; exact ih
+
+/-! ## What `matchRegex` accepts -/
+
+mutual
+  /-- The node and all its descendants. -/
+  def nodes : Regex → List Regex
+    | .mk op flags rune sub => .mk op flags rune sub :: nodesAll sub
+  def nodesAll : List Regex → List Regex
+    | [] => []
+    | r :: rest => nodes r ++ nodesAll rest
+end
+
+/-- A node `matchRegex` can go through: one of the five operators of its switch, without the
+fold-case flag. -/
+def acceptedNode (n : Regex) : Bool :=
+  !hasFold n.flags && (n.op == .literal || n.op == .capture || n.op == .concat || n.op == .charClass || n.op == .alternate)
+
+theorem nodes_mk (op : Op) (flags : Nat) (rune : List Nat) (sub : List Regex) :
+    nodes (.mk op flags rune sub) = .mk op flags rune sub :: nodesAll sub := by rw [nodes]
+
+theorem nodesAll_cons (r : Regex) (rest : List Regex) : nodesAll (r :: rest) = nodes r ++ nodesAll rest := by
+  rw [nodesAll]
+
+theorem wf_sub_nil {op : Op} {flags : Nat} {rune : List Nat} {sub : List Regex}
+    (hw : (Regex.mk op flags rune sub).wf = true) (h : op = .literal ∨ op = .charClass) : sub = [] := by
+  rw [wf_mk, Bool.and_eq_true] at hw
+  rcases h with rfl | rfl
+  · exact List.isEmpty_iff.mp hw.1
+  · simp only [Bool.and_eq_true] at hw; exact List.isEmpty_iff.mp hw.1.2
+
+mutual
+  /-- On a well-formed tree an answer of `matchRegex` means every node of the tree is accepted. -/
+  theorem regex_nodes : ∀ (re : Regex) (L : List Str), matchRegex re = some L → re.wf = true →
+      ∀ n, n ∈ nodes re → acceptedNode n = true
+    | .mk op flags rune sub, L, h, hw, n, hn => by
+      rw [nodes_mk, List.mem_cons] at hn
+      have hw' := hw
+      rw [wf_mk, Bool.and_eq_true] at hw'
+      cases op with
+      | literal =>
+        rw [matchRegex] at h
+        split at h
+        · simp at h
+        · rename_i hf
+          rw [wf_sub_nil hw (Or.inl rfl)] at hn
+          rcases hn with rfl | hn
+          · simp only [Bool.not_eq_true] at hf; simp [acceptedNode, Regex.flags, Regex.op, hf]
+          · simp [nodesAll] at hn
+      | charClass =>
+        rw [matchRegex] at h
+        split at h
+        · simp at h
+        · rename_i hf
+          rw [wf_sub_nil hw (Or.inr rfl)] at hn
+          rcases hn with rfl | hn
+          · simp only [Bool.not_eq_true] at hf; simp [acceptedNode, Regex.flags, Regex.op, hf]
+          · simp [nodesAll] at hn
+      | capture =>
+        rw [matchRegex] at h
+        split at h
+        · simp at h
+        · rename_i hf
+          rcases hn with rfl | hn
+          · simp only [Bool.not_eq_true] at hf; simp [acceptedNode, Regex.flags, Regex.op, hf]
+          · have h1 := hw'.1
+            simp only [beq_iff_eq] at h1
+            exact first_nodes sub L h hw'.2 h1 n hn
+      | concat =>
+        rw [matchRegex] at h
+        split at h
+        · simp at h
+        · rename_i hf
+          rcases hn with rfl | hn
+          · simp only [Bool.not_eq_true] at hf; simp [acceptedNode, Regex.flags, Regex.op, hf]
+          · exact concat_nodes sub L h hw'.2 n hn
+      | alternate =>
+        rw [matchRegex] at h
+        split at h
+        · simp at h
+        · rename_i hf
+          rcases hn with rfl | hn
+          · simp only [Bool.not_eq_true] at hf; simp [acceptedNode, Regex.flags, Regex.op, hf]
+          · cases ha : matchAlt sub with
+            | none => rw [ha] at h; simp at h
+            | some names => exact alt_nodes sub names ha hw'.2 n hn
+      | _ => simp [matchRegex] at h
+  theorem first_nodes : ∀ (sub : List Regex) (L : List Str), matchFirst sub = some L → wfAll sub = true →
+      sub.length = 1 → ∀ n, n ∈ nodesAll sub → acceptedNode n = true
+    | [], L, h, _, _, _, _ => by simp [matchFirst] at h
+    | r :: rest, L, h, hw, hl, n, hn => by
+      rw [matchFirst] at h
+      rw [wfAll_cons, Bool.and_eq_true] at hw
+      have : rest = [] := by cases rest with | nil => rfl | cons _ _ => simp at hl
+      subst this
+      rw [nodesAll_cons, nodesAll, List.append_nil] at hn
+      exact regex_nodes r L h hw.1 n hn
+  theorem concat_nodes : ∀ (sub : List Regex) (L : List Str), matchConcat sub = some L → wfAll sub = true →
+      ∀ n, n ∈ nodesAll sub → acceptedNode n = true
+    | [], L, h, _, _, _ => by simp [matchConcat] at h
+    | r :: rest, L, h, hw, n, hn => by
+      rw [matchConcat] at h
+      rw [wfAll_cons, Bool.and_eq_true] at hw
+      rw [nodesAll_cons, List.mem_append] at hn
+      cases hr : matchRegex r with
+      | none => rw [hr] at h; simp at h
+      | some names =>
+        rw [hr] at h
+        rcases hn with hn | hn
+        · exact regex_nodes r names hr hw.1 n hn
+        · exact loop_nodes rest names L h hw.2 n hn
+  theorem loop_nodes : ∀ (rest : List Regex) (names L : List Str), concatLoop names rest = some L →
+      wfAll rest = true → ∀ n, n ∈ nodesAll rest → acceptedNode n = true
+    | [], _, _, _, _, n, hn => by simp [nodesAll] at hn
+    | r :: rest, names, L, h, hw, n, hn => by
+      rw [concatLoop] at h
+      rw [wfAll_cons, Bool.and_eq_true] at hw
+      rw [nodesAll_cons, List.mem_append] at hn
+      cases hr : matchRegex r with
+      | none => rw [hr] at h; simp at h
+      | some vals =>
+        rw [hr] at h
+        simp only at h
+        cases hc : concatStep names vals with
+        | none => rw [hc] at h; simp at h
+        | some names' =>
+          rw [hc] at h
+          rcases hn with hn | hn
+          · exact regex_nodes r vals hr hw.1 n hn
+          · exact loop_nodes rest names' L h hw.2 n hn
+  theorem alt_nodes : ∀ (sub : List Regex) (L : List Str), matchAlt sub = some L → wfAll sub = true →
+      ∀ n, n ∈ nodesAll sub → acceptedNode n = true
+    | [], _, _, _, n, hn => by simp [nodesAll] at hn
+    | r :: rest, L, h, hw, n, hn => by
+      rw [matchAlt] at h
+      rw [wfAll_cons, Bool.and_eq_true] at hw
+      rw [nodesAll_cons, List.mem_append] at hn
+      cases hr : matchRegex r with
+      | none => rw [hr] at h; simp at h
+      | some vals =>
+        rw [hr] at h
+        cases ha : matchAlt rest with
+        | none => rw [ha] at h; simp at h
+        | some more =>
+          rcases hn with hn | hn
+          · exact regex_nodes r vals hr hw.1 n hn
+          · exact alt_nodes rest more ha hw.2 n hn
+end
+
+/-- Pigeonhole: a duplicate-free list inside another list is no longer than it. -/
+theorem nodup_length_le {ws L : List Str} (hn : ws.Nodup) (hs : ∀ w, w ∈ ws → w ∈ L) : ws.length ≤ L.length := by
+  induction ws generalizing L with
+  | nil => simp
+  | cons w ws ih =>
+    rw [List.nodup_cons] at hn
+    have hw : w ∈ L := hs w List.mem_cons_self
+    have := ih (L := L.erase w) hn.2 (fun x hx => (List.mem_erase_of_ne (fun (e : x = w) => hn.1 (by rw [← e]; exact hx))).mpr (hs x (List.mem_cons_of_mem _ hx)))
+    rw [List.length_erase_of_mem hw] at this
+    have : 0 < L.length := List.length_pos_of_mem hw
+    simp only [List.length_cons]
+    omega
+
 end InfluxQL.Rx
